@@ -105,7 +105,8 @@ def run(ctx):
     # ---- concrete companion on the REAL crates (not solver-decided, stated): allocator that inspects every released block
     conc = []
     for cfg in ([{'what': 'opening', 'x': 2}, {'what': 'witness', 'x': 2, 'm': 4}, {'what': 'mask', 'x': 6}, {'what': 'statement', 'x': 1, 'm': 1, 'n': 8}]
-                + [{'what': w, 'x': x, 'm': m, 'n': 64, 'seeded': s} for w in ('prove', 'verify_recover') for (x, m, s) in ((1, 1, True), (2, 1, True), (1, 2, False), (2, 4, False), (3, 8, False))]):
+                + [{'what': w, 'x': x, 'm': m, 'n': 64, 'seeded': s} for w in ('prove', 'verify_recover') for (x, m, s) in ((1, 1, True), (2, 1, True), (6, 1, True), (5, 1, True), (1, 2, False), (2, 4, False), (3, 8, False))]
+                + [{'what': 'prove', 'x': 1, 'm': m, 'n': 64, 'seeded': False, 'promise': True} for m in (1, 2)]):
         c = dict({'scenario': 'zeroize'}, **cfg)
         o = run_replay(c, ctx.seed)
         conc.append({'cfg': cfg, 'out': o})
